@@ -451,6 +451,14 @@ func (h *H) CrashWindowStart() {
 // Call it before CrashWindowStart.
 func (h *H) CrashAtCommits() { h.crashCommits = true }
 
+// RecycleIteratorKeys: a slice returned by badger's Item.Key() is only valid
+// until the iterator moves (the item and its buffer are reused). After this
+// call the engine overwrites such buffers as soon as the iterator moves, so
+// code that keeps Key() instead of KeyCopy() across Next() reads the wrong key.
+// Natively Badger recycles items once its prefetch window (100 items) has been
+// exceeded: harnesses that use this store enough filler data.
+func (h *H) RecycleIteratorKeys() {}
+
 // CrashAndRecover kills the process at the chosen boundary (child) or runs
 // the child and continues with the recovery part (parent).
 func (h *H) CrashAndRecover() {
